@@ -111,14 +111,35 @@ theorem finishMem_derive_agree (w : World) (mem : OSet) (co : List CRef) (failin
   simp only [finishMem, statusOf]
   (repeat' split) <;> rfl
 
+/-- with local phases only there is no delegated phase to hand a pause to (fix C09-a). -/
+theorem afterPhases_local (rm : Remotes) (mem : OSet) (pr : PhasesRes) (w : World)
+    (hl : ∀ ph ∈ mem.phases, ph.cls = "") : afterPhases rm mem pr w = w := by
+  unfold afterPhases
+  split
+  · rename_i failing
+    split
+    · unfold syncPausedAfter
+      have hnil : (phasesAfter failing mem.phases).filter (fun ph => decide (ph.cls ≠ "")) = [] := by
+        apply List.filter_eq_nil_iff.2
+        intro ph hph
+        have hm : ph ∈ mem.phases := by
+          unfold phasesAfter at hph
+          exact (List.dropWhile_sublist _).subset ((List.drop_sublist _ _).subset hph)
+        simp [hl ph hm]
+      rw [hnil]; rfl
+    · rfl
+  · rfl
+
 /-- the tail of the pass once the phases were reconciled without error and no remote phase
-reference was collected. -/
+reference was collected (local phases only). -/
 theorem activePhases_ok (cfg : Cfg) (rm : Remotes) (s : Sys) (mem : OSet) (w : World)
     (co : List CRef) (failing : Option String) (hd : hasDuplicates mem.phases = false)
+    (hl : ∀ ph ∈ mem.phases, ph.cls = "")
     (h : reconcilePhases cfg mem.owner (lookupPrev s mem) (rm.recon mem) mem.phases s.w [] = (w, .ok (co, failing)))
     (hr : w.remoteRefs = []) :
     activePhases cfg rm s mem =
       finish { s with w := { w with remoteRefs := [] } } (deriveStatus mem co failing) .ok := by
-  simp only [activePhases, hd, Bool.false_eq_true, ↓reduceIte, h, hr, List.foldl_nil]
+  simp only [activePhases, hd, Bool.false_eq_true, ↓reduceIte, h, afterPhases_local rm mem _ w hl, hr,
+    List.foldl_nil]
 
 end Pko.Props.C10Set
